@@ -90,6 +90,15 @@ func (r *vResult) write(start time.Time) {
 	b, _ := json.MarshalIndent(r, "", " ")
 	if out := os.Getenv("VERIF_OUT"); out != "" {
 		os.WriteFile(out, b, 0o644)
+		os.Remove(out + ".current")
+	}
+}
+
+// vMark records the case about to run: if the code under test kills the test process (a panic in
+// one of its own goroutines cannot be recovered here) the check reads it back as the failing input.
+func vMark(op string) {
+	if out := os.Getenv("VERIF_OUT"); out != "" {
+		os.WriteFile(out+".current", []byte(op), 0o644)
 	}
 }
 
